@@ -268,7 +268,7 @@ Qed.
 Lemma step_preserves s s' : store_ok s -> step ss p s s' -> store_ok s'.
 Proof.
   intros Hs Hst. destruct Hst as
-    [m x op rhe sv st v s Hin Hphi Hev | m x op args k sv st a v s Hin Ha Hsa | m x op rhe sv st s Hin Hphi Hno].
+    [m x op rhe sv st v s Hin Hphi Hev | m x op args k sv st a v s Hin Ha Hsa | m x op args k sv st a s Hin Ha Hsa | m x op rhe sv st s Hin Hphi Hno].
   - intros y w Hy. unfold upd in Hy. destruct (vname_eqb x y) eqn:E.
     + apply vname_eqb_eq in E. subst y. injection Hy as <-.
       assert (Hjs : vjust_stmt ss p (SSubst m x op rhe sv st) = true)
@@ -292,6 +292,8 @@ Proof.
       apply andb_true_iff in Hjs as [Hjs _]. apply andb_true_iff in Hjs as [_ Hjs].
       rewrite forallb_forall in Hjs. apply Hcl. apply Hjs. exact Ha.
     + apply Hs. exact Hy.
+  - intros y w Hy. unfold upd in Hy. destruct (vname_eqb x y) eqn:E; [discriminate|].
+    apply Hs. exact Hy.
   - intros y w Hy. unfold upd in Hy. destruct (vname_eqb x y) eqn:E; [discriminate|].
     apply Hs. exact Hy.
 Qed.
